@@ -249,6 +249,9 @@ func (c *Case) Expr(id TypeID, from string) string {
 		if t.RecvOnly {
 			return "<-chan " + c.Expr(t.Elem, from)
 		}
+		if el := c.T(t.Elem); el.Kind == KChan && el.RecvOnly {
+			return "chan (" + c.Expr(t.Elem, from) + ")" // chan <-chan T would be chan<- (chan T)
+		}
 		return "chan " + c.Expr(t.Elem, from)
 	case KFunc:
 		ps := ""
@@ -552,6 +555,9 @@ func (c *Case) TypeString(id TypeID, module, userPkg string) string {
 	case KChan:
 		if t.RecvOnly {
 			return "<-chan " + ts(t.Elem)
+		}
+		if el := c.T(t.Elem); el.Kind == KChan && el.RecvOnly {
+			return "chan (" + ts(t.Elem) + ")"
 		}
 		return "chan " + ts(t.Elem)
 	case KFunc:
